@@ -91,3 +91,44 @@ func VH_C12_label() {
 	_ = a
 	vReach("end")
 }
+
+//verif:check C12,C08 stubs=env,valuefile,abslog,snapfs reach=taken,pending-config,end desc="a follower that adopted configuration entries through the real changeConfig/commitConfig bookkeeping, then commits further and takes a snapshot: the label's configuration is the newest configuration entry at or below the snapshot index" bounds="log of 3..4 entries from index 1 (bootstrap configuration + update/configuration entries), symbolic commit indexes before and after"
+func VH_C12_follower_label() {
+	L := 3 + vChoice(2)
+	n := vCfgFollower(L)
+	r, a := n.r, n.a
+	vSetIdleHook(func() { vDrainFSM(r) })
+	// commit progress reported by the leader
+	c1 := vU64("newCommit")
+	vAssume(c1 >= r.commitIndex && c1 <= r.lastLogIndex)
+	c1 = vConcrete(c1)
+	if c1 > r.commitIndex {
+		r.setCommitIndex(c1)
+		r.applyCommitted(nil)
+		vDrainFSM(r)
+	}
+	if !r.configs.IsCommitted() {
+		vReach("pending-config")
+	}
+	applied := r.fsm.index
+	t := takeSnapshot{task: newTask(), threshold: 0}
+	r.onTakeSnapshot(t)
+	vRunSpawned(0)
+	res := <-r.snapTakenCh
+	if res.err == nil {
+		vReach("taken")
+		var want uint64
+		for k, kind := range n.kinds {
+			if kind == entryConfig && uint64(k)+1 <= applied {
+				want = uint64(k) + 1
+			}
+		}
+		vAssert(res.meta.index == applied, "label-index-is-last-applied")
+		// never an older membership than the one in force at the snapshot index
+		vAssert(res.meta.config.Index >= want, "label-config-not-older-than-in-force")
+		// and not a newer one either (configs.Committed can already be a configuration entry above the applied index)
+		vAssert(res.meta.config.Index <= want, "label-config-not-newer-than-in-force/committed-config-above-applied-index")
+	}
+	_ = a
+	vReach("end")
+}
